@@ -60,6 +60,8 @@ func init() {
 					return strings.Contains(c, "error") || strings.Contains(c, "contributions")
 				})
 			}},
+		Rule{ID: "C03.f", Explain: "every proof of a distributed session carries its own keyshare server's part: BuildDistributedProofList merges proof i with proofPs[i] (the obligations of C14.f, same rule) - merging another server's ProofP makes honest lists with two keyshare servers disagree on the secret-key response.",
+			Run: func(P *Program, R *Report) { sharedRule(P, R, "C14", "C14.f", "C03.f", nil) }},
 	)
 }
 
